@@ -372,6 +372,26 @@ def run(ctx):
                 ctx.violation("random:reinitialise:AssertionError", f"set_new_initial_state with the unchanged state at a later time raised AssertionError: {ex}; contributions {desc}", {"desc": desc})
             except Exception as ex:
                 ctx.violation(f"random:reinitialise:{type(ex).__name__}", f"set_new_initial_state with the unchanged state at a later time raised {type(ex).__name__}: {ex}; contributions {desc}", {"desc": desc})
+        # a changed state: every ball is lifted off the plane (contacts that carried load are open now); what assembly returns belongs to the new state
+        balls = [c_ for c_ in system.contributions if str(getattr(c_, "name", "")).startswith("ball") and hasattr(c_, "qDOF")]
+        if balls:
+            try:
+                qn = system.q0.copy()
+                for b_ in balls:
+                    qn[b_.qDOF[2]] += 0.7
+                with warnings.catch_warnings(), _quiet():
+                    warnings.simplefilter("ignore")
+                    system.set_new_initial_state(qn, system.u0.copy(), t0=system.t0 + 1.0, options=_opts())
+                rec, info = residual_record(system, len(recs) + 1)
+                recs.append(rec); infos[rec["id"]] = dict(info, history="re-initialised with every ball lifted off the plane")
+                descs[rec["id"]] = desc + ["re-initialised, balls lifted"]
+            except AssertionError as ex:
+                if "does not converge" in str(ex):
+                    notjudged["re-initialisation with lifted balls: fixed point did not converge (loud)"] = notjudged.get("re-initialisation with lifted balls: fixed point did not converge (loud)", 0) + 1
+                else:
+                    ctx.violation("random:reinitialise-lifted:AssertionError", f"set_new_initial_state with the balls lifted raised AssertionError: {ex}; contributions {desc}", {"desc": desc})
+            except Exception as ex:
+                ctx.violation(f"random:reinitialise-lifted:{type(ex).__name__}", f"set_new_initial_state with the balls lifted raised {type(ex).__name__}: {ex}; contributions {desc}", {"desc": desc})
     rejected, rt = runs.batch_validate(ctx, "ConsistentIC", recs, {"Mode": '"trace"'}, "cic_trace") if recs else ({}, r)
     for rid, clause in rejected.items():
         d = descs[rid]
